@@ -30,7 +30,7 @@ def true_cv(xf, lb, ub, lin, nl_vals):
         v = max(0.0, float(np.max(lb - xf, initial=0.0)), float(np.max(xf - ub, initial=0.0)))
     for (A, l, u) in lin:
         l, u = np.where(np.isnan(l), -np.inf, l), np.where(np.isnan(u), np.inf, u)      # a NaN limit means "no limit"
-        r = A @ xf
+        r = np.where(np.isnan(A), 0.0, A) @ xf                                             # a NaN coefficient counts as zero
         v = max(v, float(np.max(np.maximum(l - r, 0.0), initial=0.0)), float(np.max(np.maximum(r - u, 0.0), initial=0.0)))
     for (val, l, u) in nl_vals:
         v = max(v, float(np.max(np.maximum(l - val, 0.0), initial=0.0)), float(np.max(np.maximum(val - u, 0.0), initial=0.0)))
@@ -88,6 +88,9 @@ class ProblemInitBounded(Unit):
                 for _ in range(int(rng.integers(0, 3))):
                     m = int(rng.integers(1, 4))
                     A = rng.uniform(-2, 2, (m, n))
+                    if rng.random() < 0.15:
+                        # an undefined coefficient counts as zero (the package scrubs NaN coefficients), in rows of every kind
+                        A[int(rng.integers(0, m)), int(rng.integers(0, n))] = np.nan
                     kind = rng.integers(0, 4, m)
                     l = np.where(kind == 0, -np.inf, rng.uniform(-2, 0, m))
                     u = np.where(kind == 1, np.inf, np.where(kind == 0, 0.0, l) + rng.uniform(0.1, 3, m))
